@@ -10,7 +10,7 @@ C01 — SPECIFICATION layer of the object-level round trip (no proofs of the pro
   * `embDepth`   embedded-object nesting depth
   * `toyCodec`   a concrete instance showing `CodecOk` is satisfiable
 
-Proofs: Proofs/Lemmas/CimXml1.lean … CimXml6.lean; property theorems: Proofs/Props/C01.lean.
+Proofs: Proofs/Lemmas/CimXml1.lean … CimXml12.lean; property theorems: Proofs/Props/C01.lean.
 -/
 import Pywbem.Model.CimDefaults
 
